@@ -394,6 +394,7 @@ func (p *Prog) callEffects(fi *FuncInfo, info *types.Info, call *ast.CallExpr, e
 		switch full {
 		case "time.Now":
 			e.Nondet["time.Now:"+fi.Name] = "time.Now at " + p.pos(call)
+			e.Ghost["clock"] = true
 		case "sort.Sort", "sort.Strings", "sort.Slice", "sort.Stable":
 			e.SliceStore = true
 		}
